@@ -58,6 +58,8 @@ type Bus struct {
 	KeepRaw bool
 	Policy  Policy
 	failed  map[string]bool
+	// Panics collects handler panics contained by safePacket.
+	Panics []string
 	// Intercept, when set, sees every gossip packet before delivery and may replace it (nil = drop silently).
 	Intercept func(m *Msg, p *pdkg.GossipPacket) *pdkg.GossipPacket
 }
@@ -257,7 +259,7 @@ func (c *client) Packet(ctx context.Context, p dnet.Peer, packet *pdkg.GossipPac
 	}
 	// every receiver gets its own copy, as over the wire
 	cp := proto.Clone(packet).(*pdkg.GossipPacket)
-	resp, err := target.Packet(context.Background(), cp)
+	resp, err := c.b.safePacket(target, cp)
 	if err != nil {
 		m.Err = err.Error()
 	}
@@ -282,6 +284,20 @@ func (c *client) BroadcastDKG(ctx context.Context, p dnet.Peer, in *pdkg.DKGPack
 		_, _ = target.BroadcastDKG(context.Background(), proto.Clone(in).(*pdkg.DKGPacket))
 	}
 	return resp, err
+}
+
+// safePacket delivers a packet the way the daemon's gRPC server does: a panic in the handler is contained and reported to the
+// caller as an error (the real listener installs a recovery interceptor); the harness counts them.
+func (b *Bus) safePacket(target *dkg.Process, p *pdkg.GossipPacket) (resp *pdkg.EmptyDKGResponse, err error) {
+	defer func() {
+		if r := recover(); r != nil {
+			b.mu.Lock()
+			b.Panics = append(b.Panics, fmt.Sprint(r))
+			b.mu.Unlock()
+			resp, err = nil, fmt.Errorf("panic contained (as the recovery interceptor would): %v", r)
+		}
+	}()
+	return target.Packet(context.Background(), p)
 }
 
 // ---- commands ----
